@@ -195,6 +195,19 @@ theorem lt_of_partitions {n : ℕ} {groups : List (List ℕ)}
       (by rw [hlen, List.length_range])
   exact List.mem_range.mp (hperm.mem_iff.mpr hm)
 
+/-- groups that partition `0 … n-1` are, flattened, a permutation of `range n` -/
+theorem perm_of_partitions {n : ℕ} {groups : List (List ℕ)}
+    (hp : FoldCert.partitions n groups = true) : groups.flatten.Perm (List.range n) := by
+  simp only [FoldCert.partitions, Bool.and_eq_true, beq_iff_eq, List.all_eq_true,
+    List.mem_range] at hp
+  obtain ⟨hlen, hcnt⟩ := hp
+  have hsub : List.range n ⊆ groups.flatten := by
+    intro x hx
+    have := hcnt x (List.mem_range.mp hx)
+    exact List.count_pos_iff.mp (by omega)
+  exact ((List.subperm_of_subset List.nodup_range hsub).perm_of_length_le
+      (by rw [hlen, List.length_range])).symm
+
 /-! ### `valid`, unpacked -/
 
 theorem valid_parts {g : UGraph} {c : FoldCert} (hv : c.valid g = true) :
